@@ -1085,6 +1085,18 @@ impl ASN1Value {
                 *self = ASN1Value::SequenceOrSet(struct_value);
                 self.link_with_type(tlds, ty, type_name)
             }
+            (ASN1Type::SetOf(_), ASN1Value::LinkedNestedValue { value, .. })
+            | (ASN1Type::SequenceOf(_), ASN1Value::LinkedNestedValue { value, .. })
+            | (ASN1Type::Set(_), ASN1Value::LinkedNestedValue { value, .. })
+            | (ASN1Type::Sequence(_), ASN1Value::LinkedNestedValue { value, .. })
+                if matches![**value, ASN1Value::ObjectIdentifier(_)] =>
+            {
+                // Same ambiguity below a type reference
+                let mut pseudo_oid = std::mem::replace(&mut **value, ASN1Value::Null);
+                pseudo_oid.link_with_type(tlds, ty, type_name)?;
+                **value = pseudo_oid;
+                Ok(())
+            }
             (ASN1Type::Set(s), ASN1Value::SequenceOrSet(val))
             | (ASN1Type::Sequence(s), ASN1Value::SequenceOrSet(val)) => {
                 *self = Self::link_struct_like(val, s, tlds, type_name)?;
